@@ -790,7 +790,8 @@ Proof.
     apply inv_set_val; auto. apply I1.
   - (* Unjail *)
     destruct (val_ok e i); [|discriminate]. apply lift_ok in H. destruct H as (x & H). unfold unjail in H.
-    destruct (negb (v_exists _)); [discriminate|]. destruct (negb (v_jailed _)); [discriminate|]. inversion H; subst s'.
+    destruct (negb (v_exists _)); [discriminate|]. destruct (del s (oper e _) _); [|discriminate]. destruct (_ =? 0); [discriminate|].
+    destruct (_ <? _); [discriminate|]. destruct (negb (v_jailed _)); [discriminate|]. inversion H; subst s'.
     apply inv_set_val; auto. apply I1.
   - (* EndBlock *)
     inversion H; subst s'. unfold end_block.
@@ -1008,7 +1009,8 @@ Proof.
     unfold rate1. cbn [set_val set_vals vals]. rewrite upd_eq. destruct (Nat.eqb_spec i j) as [->|]; cbn; repeat split; auto.
   - (* Unjail *)
     destruct (val_ok e j); [|discriminate]. apply lift_ok in H. destruct H as (x & H). unfold unjail in H.
-    destruct (negb (v_exists _)); [discriminate|]. destruct (negb (v_jailed _)); [discriminate|]. inversion H; subst s'.
+    destruct (negb (v_exists _)); [discriminate|]. destruct (del s (oper e _) _); [|discriminate]. destruct (_ =? 0); [discriminate|].
+    destruct (_ <? _); [discriminate|]. destruct (negb (v_jailed _)); [discriminate|]. inversion H; subst s'.
     destruct Hr as (Ra & Rb & Rc). split; [|exact Hb].
     unfold rate1. cbn [set_val set_vals vals]. rewrite upd_eq. destruct (Nat.eqb_spec i j) as [->|]; cbn; repeat split; auto.
   - (* EndBlock *)
@@ -1420,7 +1422,8 @@ Proof.
   - destruct (val_ok e j); [|discriminate]. apply lift_ok in H. destruct H as (x & H). unfold jail in H.
     destruct (negb _); [discriminate|]. destruct (v_jailed _); [discriminate|]. inversion H; subst s'. apply (backed_ext e s); auto.
   - destruct (val_ok e j); [|discriminate]. apply lift_ok in H. destruct H as (x & H). unfold unjail in H.
-    destruct (negb (v_exists _)); [discriminate|]. destruct (negb (v_jailed _)); [discriminate|]. inversion H; subst s'. apply (backed_ext e s); auto.
+    destruct (negb (v_exists _)); [discriminate|]. destruct (del s (oper e _) _); [|discriminate]. destruct (_ =? 0); [discriminate|].
+    destruct (_ <? _); [discriminate|]. destruct (negb (v_jailed _)); [discriminate|]. inversion H; subst s'. apply (backed_ext e s); auto.
   - inversion H; subst s'. unfold end_block. destruct m; apply (backed_ext e s); auto.
   - (* Mint: at most the shares received are minted *)
     destruct (user_ok e a && val_ok e j) eqn:Eo; [|discriminate]. apply andb_prop in Eo. destruct Eo as (Ea & _).
@@ -1692,4 +1695,64 @@ Proof.
   - assert (G : PREC * T * (sd + sh) <= PREC * T * S) by (apply Z.mul_le_mono_nonneg_l; [unfold PREC; nia|lia]).
     assert (E : S * (2 * (A + B + 0)) <= S * (2 * (T * PREC) + n + 1)) by nia.
     apply (Z.mul_le_mono_pos_l _ _ S HS). unfold dec_of_int. exact E.
+Qed.
+
+(** * redeemability on a validator at exchange rate one *)
+Theorem burn_succeeds_rate1 e s a i amt :
+  Inv e s -> rate1 s i -> (liq e < nacc e)%nat ->
+  0 < amt <= dbal s a i ->
+  dec_of_int amt <= dshares s (liq e) i ->
+  redel s (liq e) i = false -> liq e <> oper e i -> v_exists (vals s i) = true ->
+  (v_status (vals s i) <> Unbonded \/ v_shares (vals s i) <> dec_of_int amt) ->
+  exists s' recv, burn e s a i amt = Ok s' recv /\ recv = dec_of_int amt.
+Proof.
+  intros HI (Hs & HT & Hk) Hl Hamt Hle Hrd Hop Hex Hlast. pose proof HI as (I1 & I2 & I3 & _).
+  unfold burn. destruct (Z.leb_spec amt 0); [lia|]. destruct (Z.ltb_spec (dbal s a i) amt); [lia|].
+  unfold transfer_delegation. cbn [set_dsup set_dbal del vals redel]. rewrite Hrd.
+  unfold dec_of_int in *.
+  destruct (Z.ltb_spec (amt * PREC) 0); [unfold PREC in *; lia|].
+  destruct (Z.eqb_spec (amt * PREC) 0); [unfold PREC in *; lia|].
+  unfold dshares in Hle. destruct (del s (liq e) i) as [d|] eqn:Ed; [|unfold PREC in *; lia].
+  rewrite Hex. cbn [negb].
+  destruct (Nat.eqb_spec (liq e) (oper e i)); [contradiction|]. cbn [andb].
+  (* Unbond *)
+  unfold unbond. cbn [set_dsup set_dbal del vals]. rewrite Ed. destruct (Z.ltb_spec d (amt * PREC)); [lia|].
+  rewrite Hex. cbn [negb].
+  destruct (Nat.eqb_spec (liq e) (oper e i)); [contradiction|]. cbn [andb].
+  assert (HdS : d <= v_shares (vals s i)).
+  { rewrite (I2 i Hex). replace d with (dshares s (liq e) i) by (unfold dshares; now rewrite Ed).
+    apply (sumN_ge1 (nacc e) (fun x => dshares s x i)); [intros; apply I3|exact Hl]. }
+  set (T := v_tokens (vals s i)) in *.
+  assert (HaT : amt <= T) by (unfold PREC in *; lia).
+  assert (Hrem : remove_del_shares (vals s i) (amt * PREC) = Some (set_ts (vals s i) (T - amt) ((T - amt) * PREC), amt)).
+  { unfold remove_del_shares. rewrite Hs. fold T.
+    destruct (Z.eqb_spec (T * PREC - amt * PREC) 0) as [E|E].
+    - assert (T = amt) by (unfold PREC in *; lia). subst amt. do 2 f_equal. f_equal; lia.
+    - destruct (Z.eqb_spec (T * PREC) 0); [unfold PREC in *; lia|].
+      assert (0 < T) by (unfold PREC in *; lia).
+      rewrite (tfs_rate1 (vals s i) T amt eq_refl Hs) by lia.
+      replace (dec_trunc_int (amt * PREC)) with amt by (unfold dec_trunc_int; symmetry; apply quot_mul_cancel; unfold PREC; lia).
+      destruct (Z.ltb_spec (T - amt) 0); [lia|]. do 2 f_equal. f_equal; lia. }
+  rewrite Hrem. cbn [set_ts v_shares v_status].
+  destruct (Z.eqb_spec amt 0); [lia|].
+  (* the validator is still there *)
+  assert (Hkeep : ((T - amt) * PREC =? 0) && vstatus_eqb (v_status (vals s i)) Unbonded = false).
+  { destruct Hlast as [Hst|Hsh].
+    - destruct (v_status (vals s i)); try contradiction; cbn; apply andb_false_r.
+    - destruct (Z.eqb_spec ((T - amt) * PREC) 0); [|reflexivity]. exfalso. apply Hsh. rewrite Hs. fold T. unfold PREC in *; lia. }
+  rewrite Hkeep.
+  cbn [set_val set_vals vals set_del]. rewrite upd_same. cbn [set_ts v_exists]. rewrite Hex. cbn [negb].
+  (* Delegate *)
+  unfold delegate. cbn [set_val set_vals vals set_del]. rewrite upd_same.
+  unfold invalid_ex_rate. cbn [set_ts v_tokens v_shares].
+  assert (Hinv : (T - amt =? 0) && (0 <? (T - amt) * PREC) = false).
+  { destruct (Z.eqb_spec (T - amt) 0) as [->|]; [reflexivity|reflexivity]. }
+  rewrite Hinv. cbn [andb].
+  unfold add_tokens_from_del. cbn [set_ts v_tokens v_shares].
+  destruct (Z.eqb_spec ((T - amt) * PREC) 0).
+  - eexists. eexists. split; [reflexivity|]. unfold dec_of_int. reflexivity.
+  - destruct (Z.eqb_spec (T - amt) 0); [unfold PREC in *; lia|].
+    eexists. eexists. split; [reflexivity|].
+    unfold shares_from_tokens, dec_quo_int. cbn [set_ts v_tokens v_shares].
+    replace ((T - amt) * PREC * amt) with (amt * PREC * (T - amt)) by ring. now apply quot_mul_cancel.
 Qed.
